@@ -47,6 +47,8 @@ func TestVerif(t *testing.T) {
 }
 
 var registry = map[string]func(t *testing.T, c *Collector){
+	"C08": func(t *testing.T, c *Collector) { runC08(c) },
+	"C14": func(t *testing.T, c *Collector) { runC14(c) },
 	"C17": func(t *testing.T, c *Collector) {
 		c.res.Rule = "all interleavings (<= bound preemptions) of Close with the real flusher goroutine and both GC goroutines, with ticks of the fake clock placing a flush, a primary-GC cycle and/or an index-GC cycle in progress, optionally a concurrent writer; oracle at the moment Close returns: nil error, no goroutine executing store code (runtime.Stack census), 0 open descriptors (MemFS ledger); after 3x the GC interval of fake time: no file-system mutation, census still empty; the directory reopens as a linearization of the acknowledged calls, also after a further GC round; plus failing opens and 20 open/close cycles (sequential); non-trivial = two threads alternated on the same lock or file"
 		scs := c17Scenarios(c.job.Tier)
